@@ -15782,7 +15782,8 @@ R_<TG_, TA_>::replayTransitions(const Transition* const transitions,
 	_core.transitionTargets  .clear();
 	_core.previousTransitions.clear();
 
-	if (HFSM2_CHECKED(transitions && count)) {
+	// a list longer than a processing call can ever record is rejected as a whole
+	if (HFSM2_CHECKED(transitions && count) && count <= TransitionSets::CAPACITY) {
 		TransitionSets currentTransitions;
 		PlanControl control{_core, currentTransitions};
 
@@ -16689,7 +16690,7 @@ RV_<G_<NFT_, TC_, Manual, TRO_ HFSM2_IF_UTILITY_THEORY(, TR_, TU_, TG_), NSL_ HF
 	_core.transitionTargets.clear();
 	HFSM2_ASSERT(_core.previousTransitions.count() == 0);
 
-	if (HFSM2_CHECKED(transitions && count)) {
+	if (HFSM2_CHECKED(transitions && count) && count <= TransitionSets::CAPACITY) {
 		TransitionSets emptyTransitions;
 		PlanControl control{_core, emptyTransitions};
 
